@@ -8,8 +8,9 @@ Import ListNotations.
 Open Scope Z_scope.
 
 Record pobs := mkPO { o_avail : Z; o_cache : list (nat * Z); o_obs : bool; o_evq : list event; o_wat : list nat }.
-(* o_disk: (name, count) with -1 for an empty file; o_jobs: (phase code, status if compared, orphan) *)
-Record sobs := mkSO { o_disk : list (nat * Z); o_procs : list (option pobs); o_jobs : list (nat * option bool * bool) }.
+(* o_disk: (name, count) with -1 for an empty file; o_jobs: (phase code, status if compared, orphan,
+   pid file exists) *)
+Record sobs := mkSO { o_disk : list (nat * Z); o_procs : list (option pobs); o_jobs : list (nat * option bool * bool * bool) }.
 
 Fixpoint assoc (k : nat) (l : list (nat * Z)) : option Z :=
   match l with [] => None | (k', v) :: l' => if Nat.eqb k k' then Some v else assoc k l' end.
@@ -48,12 +49,12 @@ Definition proc_ok (n : nat) (pr : proc) (o : option pobs) : bool :=
 Fixpoint procs_ok (n : nat) (s : state) (p : nat) (l : list (option pobs)) : bool :=
   match l with [] => true | o :: l' => proc_ok n (s_procs s p) o && procs_ok n s (S p) l' end.
 
-Fixpoint jobs_ok (s : state) (j : nat) (l : list (nat * option bool * bool)) : bool :=
+Fixpoint jobs_ok (s : state) (j : nat) (l : list (nat * option bool * bool * bool)) : bool :=
   match l with
   | [] => true
-  | (code, st, orph) :: l' =>
+  | (code, st, orph, pid) :: l' =>
       let js := s_jobs s j in
-      Nat.eqb (phase_code (j_ph js)) code && Bool.eqb (j_orph js) orph
+      Nat.eqb (phase_code (j_ph js)) code && Bool.eqb (j_orph js) orph && Bool.eqb (j_pid js) pid
       && match st with None => true | Some b => Bool.eqb (j_ok js) b end
       && jobs_ok s (S j) l'
   end.
